@@ -36,7 +36,7 @@ theorem inv_init (file : List Nat) : Inv (init file) := by
 theorem setT_same (f : Nat → TSt) (t : Nat) (v : TSt) : setT f t v t = v := by simp [setT]
 theorem setT_other (f : Nat → TSt) (t u : Nat) (v : TSt) (h : u ≠ t) : setT f t v u = f u := by simp [setT, h]
 
-theorem inv_step (s : St) (a : Act) (s' : St) (h : Inv s) (hN : s.unmapPending = false)
+theorem inv_step (s : St) (a : Act) (s' : St) (h : Inv s) (hN : s.unmapPending = false) (hDb : s.debt = 0)
     (hs : step repaired s a = some s') : Inv s' := by
   obtain ⟨⟨hd1, hd2⟩, hV, hC, hD, hB, hO⟩ := h
   cases a with
@@ -259,7 +259,7 @@ theorem inv_step (s : St) (a : Act) (s' : St) (h : Inv s) (hN : s.unmapPending =
           · simpa [setT_other _ _ _ _ hwt] using hw
         exact hO u w hu' hw'
   | destroyFinish t =>
-    simp only [step, repaired] at hs
+    simp only [step, repaired, quiet_zero s hDb] at hs
     split at hs
     · simp at hs
     · rename_i hpc
@@ -310,7 +310,7 @@ theorem inv_step (s : St) (a : Act) (s' : St) (h : Inv s) (hN : s.unmapPending =
     simp only [step] at hs; simp at hs; subst hs
     exact ⟨⟨hd1, hd2⟩, hV, hC, hD, hB, hO⟩
   | tickDecide =>
-    simp only [step, repaired] at hs
+    simp only [step, repaired, quiet_zero s hDb] at hs
     split at hs
     · simp at hs
     · by_cases hc : (s.live && s.holders.isEmpty && !s.closing && (!true || !s.touched)) = true
@@ -402,7 +402,7 @@ theorem pending_step (s : St) (a : Act) (s' : St) (hN : s.unmapPending = false) 
     by_cases h0 : ((s.th t).pc != 4) = true
     · simp [h0] at hs
     · simp only [h0] at hs
-      by_cases h1 : (!s.holders.isEmpty) = true
+      by_cases h1 : (!quiet s) = true
       · simp [h1] at hs
       · simp only [h1] at hs
         by_cases h2 : (true && !s.mem.isEmpty) = true
@@ -414,7 +414,7 @@ theorem pending_step (s : St) (a : Act) (s' : St) (hN : s.unmapPending = false) 
     by_cases h0 : (!s.armed) = true
     · simp [h0] at hs
     · simp only [h0] at hs
-      by_cases h1 : (s.live && s.holders.isEmpty && !s.closing && (!true || !s.touched)) = true
+      by_cases h1 : (s.live && quiet s && !s.closing && (!true || !s.touched)) = true
       · simp only [h1] at hs; simp at hs; subst hs; simp [hN]
       · simp only [h1] at hs; simp at hs; subst hs; simp [hN]
   | closeFlush =>
@@ -438,14 +438,95 @@ theorem pending_step (s : St) (a : Act) (s' : St) (hN : s.unmapPending = false) 
     cases hl : s.live <;> simp [hl] at hs
     subst hs; exact hN
 
+/-- requests give their vigil back exactly once: the counter never owes anything -/
+theorem debt_step (s : St) (a : Act) (s' : St) (hN : s.debt = 0) (hs : step repaired s a = some s') :
+    s'.debt = 0 := by
+  have key : ∀ (o : Option St), (∀ x, o = some x → x.debt = 0) → o = some s' → s'.debt = 0 :=
+    fun o h e => h s' e
+  cases a with
+  | summon t =>
+    simp only [step, repaired] at hs
+    by_cases h0 : ((s.th t).pc != 0) = true
+    · simp [h0] at hs
+    · simp only [h0] at hs
+      cases hl : s.live <;> cases hc : s.closing <;> simp [hl, hc] at hs <;> subst hs <;> simp [hN]
+  | begin t =>
+    simp only [step] at hs
+    by_cases h0 : ((s.th t).pc != 1) = true
+    · simp [h0] at hs
+    · simp [h0] at hs; subst hs; simp [hN]
+  | write t k =>
+    simp only [step] at hs
+    by_cases h0 : ((s.th t).pc != 2) = true
+    · simp [h0] at hs
+    · simp [h0] at hs; subst hs; simp [hN]
+  | del t k =>
+    simp only [step] at hs
+    split at hs
+    · simp at hs
+    · split at hs
+      · cases hs; exact hN
+      · split at hs
+        · split at hs <;> (cases hs; exact hN)
+        · cases hs; exact hN
+  | cease t =>
+    simp only [step] at hs
+    by_cases h0 : ((s.th t).pc != 2) = true
+    · simp [h0] at hs
+    · simp [h0] at hs; subst hs; simp [hN]
+  | destroyFinish t =>
+    simp only [step, repaired] at hs
+    by_cases h0 : ((s.th t).pc != 4) = true
+    · simp [h0] at hs
+    · simp only [h0] at hs
+      by_cases h1 : (!quiet s) = true
+      · simp [h1] at hs
+      · simp only [h1] at hs
+        by_cases h2 : (true && !s.mem.isEmpty) = true
+        · simp only [h2] at hs; simp at hs; subst hs; simp [hN]
+        · simp only [h2] at hs; simp at hs; subst hs; simp [hN]
+  | tickRead => simp [step] at hs; subst hs; simp [hN]
+  | tickDecide =>
+    simp only [step, repaired] at hs
+    by_cases h0 : (!s.armed) = true
+    · simp [h0] at hs
+    · simp only [h0] at hs
+      by_cases h1 : (s.live && quiet s && !s.closing && (!true || !s.touched)) = true
+      · simp only [h1] at hs; simp at hs; subst hs; simp [hN]
+      · simp only [h1] at hs; simp at hs; subst hs; simp [hN]
+  | closeFlush =>
+    simp only [step] at hs
+    by_cases h0 : (s.live && s.stage == 1) = true
+    · simp only [h0] at hs; simp at hs; subst hs; simp [hN]
+    · simp [h0] at hs
+  | closeDone =>
+    simp only [step] at hs
+    by_cases h0 : (s.live && s.stage == 2) = true
+    · simp only [h0] at hs; simp at hs; subst hs; simp [hN]
+    · simp [h0] at hs
+  | flushTick =>
+    simp only [step] at hs
+    by_cases h0 : (s.live && !s.closing && s.stage == 0) = true
+    · simp only [h0] at hs; simp at hs; subst hs; simp [hN]
+    · simp [h0] at hs
+  | staleUnmap =>
+    simp only [step] at hs
+    split at hs
+    · cases hs; exact hN
+    · simp at hs
+  | exit =>
+    simp only [step, repaired] at hs
+    cases hl : s.live <;> simp [hl] at hs
+    subst hs; exact hN
+
 /-- For the repaired protocol every acknowledged, not deleted write is durable in every reachable
     state — in particular whenever the swamp is re-opened after a close or a destroy. -/
 theorem durable_repaired : Holds repaired := by
   constructor
   intro file sched s hr
-  exact (LTS.inv_run (step repaired) (fun s => Inv s ∧ s.unmapPending = false)
-    (fun s a s' hi hs => ⟨inv_step s a s' hi.1 hi.2 hs, pending_step s a s' hi.2 hs⟩)
-    (init file) sched s ⟨inv_init file, rfl⟩ hr).1.dur
+  exact (LTS.inv_run (step repaired) (fun s => Inv s ∧ s.unmapPending = false ∧ s.debt = 0)
+    (fun s a s' hi hs => ⟨inv_step s a s' hi.1 hi.2.1 hi.2.2 hs, pending_step s a s' hi.2.1 hs, debt_step s a s' hi.2.2 hs⟩)
+    (init file) sched s ⟨inv_init file, rfl, rfl⟩ hr).1.dur
 
 /-- Non-vacuity: a destroy that finds a record after the drain closes the swamp instead (flush, unmap). -/
 example : (run repaired (init [1]) [.summon 1, .summon 2, .del 2 1, .write 1 5, .cease 1, .destroyFinish 2,
@@ -463,21 +544,21 @@ def witnessDestroy : List Act :=
 /-- the same schedule when summon already takes the vigil (no separate begin step) -/
 def witnessDestroyA : List Act := [.summon 1, .summon 2, .del 2 1, .write 1 5, .cease 1, .destroyFinish 2]
 
-theorem destroy_loses_acked_write (as w x : Bool) :
-    (run { destroyRechecks := false, atomicSummon := as, summonWaitsForUnmap := w, stopWaitsUntilClosed := x } (init [1])
+theorem destroy_loses_acked_write (as w x y : Bool) :
+    (run { destroyRechecks := false, atomicSummon := as, summonWaitsForUnmap := w, stopWaitsUntilClosed := x, ceasesOnce := y } (init [1])
       (if as then witnessDestroyA else witnessDestroy)).map
       (fun s => (s.live, s.file, s.acked)) = some (false, [], [5]) := by
-  cases as <;> cases w <;> cases x <;> decide
+  cases as <;> cases w <;> cases x <;> cases y <;> decide
 
 /-- (2) the listener reads a stale last-interaction time; a request summons the instance; the
     listener closes it; the request's write lands in the closed instance. -/
 def witnessIdle : List Act :=
   [.summon 9, .begin 9, .cease 9, .tickRead, .summon 1, .tickDecide, .closeFlush, .closeDone, .begin 1, .write 1 5]
 
-theorem idle_close_loses_acked_write (dr w x : Bool) :
-    (run { destroyRechecks := dr, atomicSummon := false, summonWaitsForUnmap := w, stopWaitsUntilClosed := x } (init [1]) witnessIdle).map
+theorem idle_close_loses_acked_write (dr w x y : Bool) :
+    (run { destroyRechecks := dr, atomicSummon := false, summonWaitsForUnmap := w, stopWaitsUntilClosed := x, ceasesOnce := y } (init [1]) witnessIdle).map
       (fun s => (s.live, s.file, s.acked)) = some (false, [1], [1, 5]) := by
-  cases dr <;> cases w <;> cases x <;> decide
+  cases dr <;> cases w <;> cases x <;> cases y <;> decide
 
 /-- (3) an idle close has flushed the instance; a request summons, does not wait for the map entry to go away and
     gets a fresh instance; the old instance's close callback then removes *that* instance from the map; the
@@ -485,16 +566,30 @@ theorem idle_close_loses_acked_write (dr w x : Bool) :
 def witnessUnmap : List Act :=
   [.summon 9, .cease 9, .tickRead, .tickDecide, .closeFlush, .summon 1, .write 1 5, .cease 1, .staleUnmap]
 
-theorem stale_unmap_loses_acked_write (x : Bool) :
-    (run { destroyRechecks := true, atomicSummon := true, summonWaitsForUnmap := false, stopWaitsUntilClosed := x } (init [1]) witnessUnmap).map
-      (fun s => (s.live, s.file, s.acked)) = some (false, [1], [1, 5]) := by cases x <;> decide
+theorem stale_unmap_loses_acked_write (x y : Bool) :
+    (run { destroyRechecks := true, atomicSummon := true, summonWaitsForUnmap := false, stopWaitsUntilClosed := x, ceasesOnce := y } (init [1]) witnessUnmap).map
+      (fun s => (s.live, s.file, s.acked)) = some (false, [1], [1, 5]) := by cases x <;> cases y <;> decide
 
 /-- (4) GracefulStop returns while the swamp is still mapped (its close has not flushed yet) and the process exits -/
 def witnessExit : List Act := [.summon 1, .write 1 5, .cease 1, .exit]
 
-theorem early_exit_loses_acked_write :
-    (run { destroyRechecks := true, atomicSummon := true, summonWaitsForUnmap := true, stopWaitsUntilClosed := false } (init [1]) witnessExit).map
-      (fun s => (s.live, s.file, s.acked)) = some (false, [1], [1, 5]) := by decide
+theorem early_exit_loses_acked_write (y : Bool) :
+    (run { destroyRechecks := true, atomicSummon := true, summonWaitsForUnmap := true, stopWaitsUntilClosed := false, ceasesOnce := y } (init [1]) witnessExit).map
+      (fun s => (s.live, s.file, s.acked)) = some (false, [1], [1, 5]) := by cases y <;> decide
+
+/-- (5) the vigil counter loses somebody else's vigil: W (1) holds a vigil; D1 (4) deletes the last record and drains;
+    E (2) inserts 7 meanwhile; D2 (3) deletes 7 — the swamp is empty again, D2 gives its vigil back, finds the swamp
+    already being destroyed, and its handler gives the vigil back once more; D1's drain now passes although W is
+    still in flight; the file is deleted; W's insert is acknowledged into the destroyed instance. -/
+def witnessDebt : List Act :=
+  [.summon 1, .summon 2, .summon 3, .summon 4, .del 4 1, .write 2 7, .cease 2, .del 3 7, .destroyFinish 4, .write 1 5]
+
+theorem double_cease_loses_acked_write :
+    (run { destroyRechecks := true, atomicSummon := true, summonWaitsForUnmap := true, stopWaitsUntilClosed := true, ceasesOnce := false }
+      (init [1]) witnessDebt).map (fun s => (s.live, s.file, s.acked)) = some (false, [], [5]) := by decide
+
+/-- the same schedule with one cease per request: the drain waits for W (the step is not enabled) -/
+example : (run repaired (init [1]) witnessDebt) = none := by decide
 
 theorem refute (c : Cfg) (file : List Nat) (sched : List Act) (f a : List Nat)
     (hw : (run c (init file) sched).map (fun s => (s.live, s.file, s.acked)) = some (false, f, a))
@@ -523,6 +618,12 @@ structure Facts where
   summonWaitsForUnmap : Tri
   /-- hydra.GracefulStop leaves its wait loop only when CountActiveSwamps() is 0 (or after the forced close) -/
   stopWaitsUntilClosed : Tri
+  /-- no request path calls CeaseVigil twice for one BeginVigil (the swamp methods that auto-destroy do not cease a
+      vigil that the gateway handler's deferred CeaseVigil gives back as well) -/
+  ceasesVigilOnce : Tri
+  /-- (not used by `classify`: acknowledged deletes are outside the Lean statement; the schedule driver uses it)
+      DeleteTreasure refuses to work on a closed instance and the gateway goes on with the mapped one -/
+  deleteRefusesClosedInstance : Tri
   /-- (not used by `classify`; the schedule driver uses it) SaveFunction drops a queued delete marker when a key
       is re-created and deleteHandler queues a marker only for an object that has a file pointer -/
   recreateDropsDeleteMarker : Tri
@@ -532,13 +633,15 @@ def cfgOf (f : Facts) : Cfg :=
   { destroyRechecks := f.destroyRechecksAfterDrain.isYes,
     atomicSummon := f.listenerReadsTouchUnderLock.isYes && f.summonTakesVigil.isYes,
     summonWaitsForUnmap := !f.summonWaitsForUnmap.isNo,
-    stopWaitsUntilClosed := !f.stopWaitsUntilClosed.isNo }
+    stopWaitsUntilClosed := !f.stopWaitsUntilClosed.isNo,
+    ceasesOnce := !f.ceasesVigilOnce.isNo }
 
 def findings (c : Cfg) : List String :=
   (if c.destroyRechecks then [] else ["C16-auto-destroy-loses-acked-write"]) ++
   (if c.atomicSummon then [] else ["C16-idle-close-loses-acked-write"]) ++
   (if c.summonWaitsForUnmap then [] else ["C16-summon-replaces-closing-instance"]) ++
-  (if c.stopWaitsUntilClosed then [] else ["C16-stop-returns-before-swamps-closed"])
+  (if c.stopWaitsUntilClosed then [] else ["C16-stop-returns-before-swamps-closed"]) ++
+  (if c.ceasesOnce then [] else ["C16-double-cease-unblocks-drain"])
 
 def classify (f : Facts) : Verdict :=
   if f.destroyRechecksAfterDrain = .unknown then .undetermined "autoDestroy.rechecksAfterDrain" else
@@ -546,9 +649,14 @@ def classify (f : Facts) : Verdict :=
   if f.summonTakesVigil = .unknown then .undetermined "summon.takesVigil" else
   if f.summonWaitsForUnmap = .unknown then .undetermined "summon.waitsForUnmap" else
   if f.stopWaitsUntilClosed = .unknown then .undetermined "gracefulStop.waitsUntilClosed" else
+  if f.ceasesVigilOnce = .unknown then .undetermined "vigil.ceasedOncePerRequest" else
   match findings (cfgOf f) with
   | [] => .holds
   | fs => .violated fs
+
+theorem cfg_eta (c : Cfg) :
+    c = ⟨c.destroyRechecks, c.atomicSummon, c.summonWaitsForUnmap, c.stopWaitsUntilClosed, c.ceasesOnce⟩ := by
+  cases c; rfl
 
 theorem classify_sound (f : Facts) : (classify f).Sound (Holds (cfgOf f)) := by
   unfold classify
@@ -557,53 +665,35 @@ theorem classify_sound (f : Facts) : (classify f).Sound (Holds (cfgOf f)) := by
   split; · trivial
   split; · trivial
   split; · trivial
+  split; · trivial
+  generalize cfgOf f = c
   split
   · rename_i hf
-    have h1 : (cfgOf f).destroyRechecks = true := by
-      cases hx : (cfgOf f).destroyRechecks <;> simp [findings, hx] at hf ⊢
-    have h2 : (cfgOf f).atomicSummon = true := by
-      cases hx : (cfgOf f).atomicSummon <;> simp [findings, hx] at hf ⊢
-    have h3 : (cfgOf f).summonWaitsForUnmap = true := by
-      cases hx : (cfgOf f).summonWaitsForUnmap <;> simp [findings, hx] at hf ⊢
-    have h4 : (cfgOf f).stopWaitsUntilClosed = true := by
-      cases hx : (cfgOf f).stopWaitsUntilClosed <;> simp [findings, hx] at hf ⊢
-    have : cfgOf f = repaired := by
-      cases hc : cfgOf f; simp [hc] at h1 h2 h3 h4; simp [repaired, h1, h2, h3, h4]
-    show Holds (cfgOf f)
+    have h1 : c.destroyRechecks = true := by cases hx : c.destroyRechecks <;> simp [findings, hx] at hf ⊢
+    have h2 : c.atomicSummon = true := by cases hx : c.atomicSummon <;> simp [findings, hx] at hf ⊢
+    have h3 : c.summonWaitsForUnmap = true := by cases hx : c.summonWaitsForUnmap <;> simp [findings, hx] at hf ⊢
+    have h4 : c.stopWaitsUntilClosed = true := by cases hx : c.stopWaitsUntilClosed <;> simp [findings, hx] at hf ⊢
+    have h5 : c.ceasesOnce = true := by cases hx : c.ceasesOnce <;> simp [findings, hx] at hf ⊢
+    have : c = repaired := by rw [cfg_eta c, h1, h2, h3, h4, h5]; rfl
+    show Holds c
     rw [this]; exact durable_repaired
   · rename_i fs hne
     refine ⟨?_, trivial⟩
-    by_cases h1 : (cfgOf f).destroyRechecks = false
-    · have hc : cfgOf f = { destroyRechecks := false, atomicSummon := (cfgOf f).atomicSummon,
-                            summonWaitsForUnmap := (cfgOf f).summonWaitsForUnmap,
-                            stopWaitsUntilClosed := (cfgOf f).stopWaitsUntilClosed } := by
-        cases hcc : cfgOf f; simp [hcc] at h1; simp [h1]
-      rw [hc]
-      exact refute _ [1] _ [] [5] (destroy_loses_acked_write _ _ _) ⟨5, by simp, by simp⟩
-    · have h1' : (cfgOf f).destroyRechecks = true := by simpa using h1
-      by_cases h2 : (cfgOf f).atomicSummon = false
-      · have hc : cfgOf f = { destroyRechecks := (cfgOf f).destroyRechecks, atomicSummon := false,
-                              summonWaitsForUnmap := (cfgOf f).summonWaitsForUnmap,
-                              stopWaitsUntilClosed := (cfgOf f).stopWaitsUntilClosed } := by
-          cases hcc : cfgOf f; simp [hcc] at h2; simp [h2]
-        rw [hc]
-        exact refute _ [1] _ [1] [1, 5] (idle_close_loses_acked_write _ _ _) ⟨5, by simp, by simp⟩
-      · have h2' : (cfgOf f).atomicSummon = true := by simpa using h2
-        by_cases h3 : (cfgOf f).summonWaitsForUnmap = false
-        · have hc : cfgOf f = { destroyRechecks := true, atomicSummon := true, summonWaitsForUnmap := false,
-                                stopWaitsUntilClosed := (cfgOf f).stopWaitsUntilClosed } := by
-            cases hcc : cfgOf f; simp [hcc] at h1' h2' h3; simp [h1', h2', h3]
-          rw [hc]
-          exact refute _ [1] _ [1] [1, 5] (stale_unmap_loses_acked_write _) ⟨5, by simp, by simp⟩
-        · have h3' : (cfgOf f).summonWaitsForUnmap = true := by simpa using h3
-          have h4 : (cfgOf f).stopWaitsUntilClosed = false := by
-            cases hx : (cfgOf f).stopWaitsUntilClosed with
-            | false => rfl
-            | true => exfalso; apply hne; simp [findings, h1', h2', h3', hx]
-          have hc : cfgOf f = { destroyRechecks := true, atomicSummon := true, summonWaitsForUnmap := true,
-                                stopWaitsUntilClosed := false } := by
-            cases hcc : cfgOf f; simp [hcc] at h1' h2' h3' h4; simp [h1', h2', h3', h4]
-          rw [hc]
-          exact refute _ [1] _ [1] [1, 5] early_exit_loses_acked_write ⟨5, by simp, by simp⟩
+    rw [cfg_eta c]
+    cases h1 : c.destroyRechecks with
+    | false => exact refute _ [1] _ [] [5] (destroy_loses_acked_write _ _ _ _) ⟨5, by simp, by simp⟩
+    | true =>
+      cases h2 : c.atomicSummon with
+      | false => exact refute _ [1] _ [1] [1, 5] (idle_close_loses_acked_write _ _ _ _) ⟨5, by simp, by simp⟩
+      | true =>
+        cases h3 : c.summonWaitsForUnmap with
+        | false => exact refute _ [1] _ [1] [1, 5] (stale_unmap_loses_acked_write _ _) ⟨5, by simp, by simp⟩
+        | true =>
+          cases h4 : c.stopWaitsUntilClosed with
+          | false => exact refute _ [1] _ [1] [1, 5] (early_exit_loses_acked_write _) ⟨5, by simp, by simp⟩
+          | true =>
+            cases h5 : c.ceasesOnce with
+            | false => exact refute _ [1] _ [] [5] double_cease_loses_acked_write ⟨5, by simp, by simp⟩
+            | true => exfalso; apply hne; simp [findings, h1, h2, h3, h4, h5]
 
 end Hv.C16
